@@ -558,3 +558,77 @@ impl SubCheck for UnsubscribedTogether {
 		obs.check(bad.is_empty(), "c06/unsubscribe-answers-for-one-subscription", || format!("{bad:?}; case={case:?}"));
 	}
 }
+
+// ---------------------------------------------------------------------------------------------
+// services built on several threads at once: every connection has an id of its own
+// ---------------------------------------------------------------------------------------------
+
+#[derive(Clone, Debug, Serialize, Deserialize)]
+pub struct ConnIdCase {
+	pub threads: u8,
+	pub per_thread: u16,
+	pub via_set_http_middleware: bool,
+}
+
+pub struct ConnectionIdsAcrossThreads;
+
+impl SubCheck for ConnectionIdsAcrossThreads {
+	type Case = ConnIdCase;
+	fn name(&self) -> &'static str {
+		"connection-ids-across-threads"
+	}
+	fn cases(&self, tier: Tier) -> u32 {
+		tier.pick(40, 1_000)
+	}
+	fn shards(&self, _tier: Tier) -> u32 {
+		2
+	}
+	fn strategy(&self, _tier: Tier) -> BoxedStrategy<ConnIdCase> {
+		(2u8..8, 200u16..1500, any::<bool>()).prop_map(|(threads, per_thread, via_set_http_middleware)| ConnIdCase { threads, per_thread, via_set_http_middleware }).boxed()
+	}
+	fn run(&self, case: &ConnIdCase, obs: &mut Obs) {
+		obs.nontrivial();
+		let threads = case.threads.clamp(2, 8) as usize;
+		let per = case.per_thread.max(1) as usize;
+		// the fixture is made inside a runtime, its parts are handed to plain OS threads: each thread builds its services
+		// (as every hyper connection task of a server does) and asks each one for its connection id
+		let (builder, methods, stop, _keep) = rt().block_on(async {
+			let fix = Fixture::new(Cfg { via_set_http_middleware: case.via_set_http_middleware, ..Cfg::default() });
+			(fix.builder.clone(), fix.methods.clone(), fix.stop.clone(), fix)
+		});
+		let barrier = Arc::new(std::sync::Barrier::new(threads));
+		let ids: Vec<Vec<u64>> = std::thread::scope(|sc| {
+			let hs: Vec<_> = (0..threads)
+				.map(|_| {
+					let (builder, methods, stop, barrier) = (builder.clone(), methods.clone(), stop.clone(), barrier.clone());
+					sc.spawn(move || {
+						let rt = rt();
+						barrier.wait();
+						let mut svcs = Vec::with_capacity(per);
+						for _ in 0..per {
+							svcs.push(builder.clone().build(methods.clone(), stop.clone()));
+						}
+						rt.block_on(async move {
+							let mut out = vec![];
+							for mut svc in svcs {
+								let r = http_call(&mut svc, HttpReq::post_json(br#"{"jsonrpc":"2.0","id":1,"method":"conn_id"}"#)).await;
+								let v: Value = serde_json::from_slice(&r.body).unwrap_or(Value::Null);
+								if let Some(n) = v["result"].as_u64() {
+									out.push(n);
+								}
+							}
+							out
+						})
+					})
+				})
+				.collect();
+			hs.into_iter().map(|h| h.join().unwrap_or_default()).collect()
+		});
+		let mut all: Vec<u64> = ids.into_iter().flatten().collect();
+		let n = all.len();
+		all.sort();
+		all.dedup();
+		obs.check(n == threads * per, "c06/connection-id-not-reported", || format!("{n} of {} services told their connection id; case={case:?}", threads * per));
+		obs.check(all.len() == n, "c06/connection-id-shared-by-two-connections", || format!("{n} services built on {threads} threads have {} distinct connection ids: subscriptions are kept per connection id; case={case:?}", all.len()));
+	}
+}
